@@ -101,6 +101,42 @@ def make_state(rng, w, tame=0.6):
     return regs, cells
 
 
+def flag_boundary_cases(rng):
+    """deterministic grid for the flag rules: every double-operand instruction x .B/.W x source in {each constant of
+    the two constant generators, register} x destination register holding each boundary value (x boundary source)"""
+    out = []
+    b8, b16 = [0, 1, 0x7f, 0x80, 0xff], [0, 1, 0x7fff, 0x8000, 0xffff]
+    cg = [(2, 2), (2, 3), (3, 0), (3, 1), (3, 2), (3, 3)]          # (register, As): #4 #8 #0 #1 #2 #-1
+    for op in range(4, 16):
+        for bw in (0, 1):
+            vals = b8 if bw else b16
+            hi = rng.choice([0, 0xff00, 0x1200]) if bw else 0
+            for dv in vals:
+                for (sr, As) in cg:
+                    w = (op << 12) | (sr << 8) | (bw << 6) | (As << 4) | 6          # dst r6
+                    regs = [0xf000, 0x0800, rng.choice([0, 1, 0x100, 0x107]), 0] + [0] * 12
+                    regs[6] = dv | hi
+                    out.append((w, regs, {0xf000: w & 255, 0xf001: w >> 8, 0xf002: 0, 0xf003: 0}, "-"))
+                for sv in vals:
+                    w = (op << 12) | (5 << 8) | (bw << 6) | 6                          # src r5, dst r6
+                    regs = [0xf000, 0x0800, rng.choice([0, 1, 0x100, 0x107]), 0] + [0] * 12
+                    regs[5], regs[6] = sv | hi, dv | hi
+                    out.append((w, regs, {0xf000: w & 255, 0xf001: w >> 8, 0xf002: 0, 0xf003: 0}, "-"))
+    for op in (0, 1, 2, 3, 4):      # rrc swpb rra sxt push, register and CG operands
+        for bw in (0, 1):
+            for dv in (b8 if bw else b16):
+                for c in (0, 1):
+                    w = 0x1000 | (op << 7) | (bw << 6) | 6
+                    regs = [0xf000, 0x0800, c, 0] + [0] * 12
+                    regs[6] = dv
+                    out.append((w, regs, {0xf000: w & 255, 0xf001: w >> 8, 0x7fe: 0x55, 0x7ff: 0xaa}, "-"))
+            for (sr, As) in cg:
+                w = 0x1000 | (op << 7) | (bw << 6) | (As << 4) | sr
+                regs = [0xf000, 0x0800, 0, 0] + [0] * 12
+                out.append((w, regs, {0xf000: w & 255, 0xf001: w >> 8, 0x7fe: 0x55, 0x7ff: 0xaa}, "-"))
+    return out
+
+
 def line(regs, cells, bio="-", cmd="sim"):
     return "%s msp430 %s %s %s" % (cmd, bio, ",".join("%x" % r for r in regs),
                                   ",".join("%x:%02x" % (a, cells[a]) for a in sorted(cells)) or "-")
